@@ -432,7 +432,6 @@ static void run_queries(Polyhedron& A, const Polyhedron& B, int n, const Sys& SA
     break; }
   case 2: case 3: {
     Constraint c = rand_con(n, true);
-    if (!nnc && c.is_strict_inequality()) { /* allowed: relation_with accepts strict constraints on C polyhedra? it throws; skip */ return; }
     tr(pre + ".relation_with(" + str(c) + ")"); hx::count("q.relation_with_c");
     Poly_Con_Relation r = A.relation_with(c);
     Con rc = ref::conv(c, n);
